@@ -12,6 +12,8 @@ H.append({"name":"H_bsdiff","tiers":Q,"scale":"b2","preemptions":1,"bounds":"bsd
   "param_sets":[{"n0":a,"n1":n,"parts":p,"policy":q} for a in (3,6) for n in (5,9,13) for p in (1,2,3) for q in (0,1,2)]})
 H.append({"name":"H_rediff","tiers":Q,"scale":"b2","preemptions":-1,"bounds":"optimizer analysis + rewrite under every iteration order of its maps: new file sharing one block with each of two old files (tie) and a no-tie control",
   "param_sets":[{"shape":0},{"shape":1}]})
+H.append({"name":"H_diff","tiers":Q,"scale":"b2","preemptions":0,"bounds":"source readers that return the last bytes of a file together with io.EOF (io.Reader allows it), canonical schedule, three sizes",
+  "param_sets":[{"n0":a,"n1":b,"slicing":2,"policy":0} for (a,b) in ((4,3),(3,2),(5,0))]})
 H.append({"name":"H_diff","tiers":Q,"scale":"b2","preemptions":-1,"novalidate":True,"bounds":"SMT predictive race query over the event trace of the differ pipeline (diff / sign / reader goroutines, multiread, taskgroup, io.Pipe), with and without short reads",
   "param_sets":[{"n0":4,"n1":3,"slicing":s,"policy":0,"race":1} for s in (0,1)]})
 H.append({"name":"H_bsdiff","tiers":Q,"scale":"b2","preemptions":-1,"novalidate":True,"bounds":"race query over the bsdiff scanner's worker / dispatcher / collector goroutines and the suffix-sort goroutines, partitions 1..3",
